@@ -925,6 +925,13 @@ func (ce *cenv) evalCall(e *CExpr) cvar {
 		return cvar{v: mkSelect(ce.st.H("ghost:"+e.Name+":"+e.Args[0].String(), arraySort(sortInt, sortInt)), x.toTerm(v.v, v.t)), t: mathInt}
 	case "cfbenc", "cfbdec", "bytesmatch":
 		return ce.evalCrypto(e)
+	case "room":
+		// room(ch): a send on the channel cannot block (ghost upper bound of the length, kept for a
+		// channel with a declared sole producer, is below the capacity)
+		argn(1)
+		v := ce.eval(e.Args[0])
+		cht := x.toTerm(v.v, v.t)
+		return cvar{v: mkLt(mkSelect(ce.st.H("ghost:chanmax", arraySort(sortInt, sortInt)), cht), mkApp("chan.cap", sortInt, cht)), t: types.Typ[types.Bool]}
 	case "pending":
 		// pending(ch): the channel is known to hold at least one element (ghost lower bound kept
 		// for a channel with a declared sole consumer)
